@@ -572,7 +572,7 @@ static void applyStep(Prog& p, const Step& s, bool forced) {
 struct Verdict {
   std::map<std::string, std::string> viol;  // kind -> detail (first of its kind)
   long tris = 0, corners = 0, cornersAffine = 0, skippedNonAffine = 0, zeros = 0, normals = 0, thin = 0, runs = 0, emptyRuns = 0,
-       backRuns = 0, mirrorRuns = 0, instancePairs = 0, near = 0, near2 = 0, posHalf = 0, posOver = 0, libFaces = 0;
+       backRuns = 0, mirrorRuns = 0, instancePairs = 0, near = 0, near2 = 0, propBad = 0, posHalf = 0, posOver = 0, posBad = 0, libFaces = 0;
   int nonEmptyRuns = 0;
   void add(const std::string& kind, const std::string& detail) {
     if (!viol.count(kind)) viol[kind] = detail;
@@ -741,6 +741,7 @@ static void judge(const Prog& p, Verdict& V) {
         if (best > 0.5L * tol) ++V.posHalf;
         if (best > tol) ++V.posOver;
         if (!(best <= kPos * tol)) {
+          ++V.posBad;
           d.str("");
           d << "vertex " << fmtV(q[k]) << " of triangle " << t << " (run " << run << ", " << O.name << ", faceID " << g.faceID[t] << ", back=" << back
             << ") is " << (double)best << " from the transformed source face; tolerance " << (double)tol;
@@ -795,6 +796,7 @@ static void judge(const Prog& p, Verdict& V) {
           if (err > 0.25L * slack) ++V.near;
           if (err > 0.5L * slack) ++V.near2;
           if (!(err <= slack)) {
+            ++V.propBad;
             d.str("");
             d << "channel " << ch << " at " << fmtV(q[k]) << " (triangle " << t << ", run " << run << ", " << O.name << ", faceID " << g.faceID[t]
               << ") is " << val << " but the source field at the pre-image " << fmtV(y) << " is " << (double)want << " (error " << (double)err << ", allowed "
@@ -907,7 +909,8 @@ int main(int argc, char** argv) {
 
   std::vector<const char*> CN = {"programs", "transitions", "errors", "empty_results", "runs", "empty_runs", "backside_runs", "mirrored_runs",
                                  "instance_pairs", "tris", "tris_library_faces", "normals_judged", "normals_thin_skipped", "prop_corners",
-                                 "prop_corners_judged", "prop_skipped_nonaffine", "prop_over_quarter_slack", "prop_over_half_slack", "pos_over_half_tol", "pos_over_tol", "zero_channels_judged", "states", "programs_coincident_operands", "programs_refine_of_zero_tangents"};
+                                 "prop_corners_judged", "prop_skipped_nonaffine", "prop_over_quarter_slack", "prop_over_half_slack", "pos_over_half_tol", "pos_over_tol", "zero_channels_judged", "states", "programs_coincident_operands", "programs_refine_of_zero_tangents", "prop_over_slack", "pos_over_2tol",
+                                 "violating_programs", "violating_programs_untagged"};
 
   auto runProgram = [&](const Alphabet& A, const std::vector<int>& d, int depth, Ctx& c) {
     const auto& seeds = A.seeds;
@@ -941,11 +944,21 @@ int main(int argc, char** argv) {
     if (V.tris == 0) c.count("empty_results");
     MeshGL64 g = p.m.GetMeshGL64();
     uint64_t h = byteHash(g, false);
+    if (const char* dp = getenv("C07_DUMP_HASH")) {
+      FILE* f = fopen(dp, "a");
+      fprintf(f, "%s %016llx\n", name.c_str(), (unsigned long long)h);
+      fclose(f);
+    }
     if (c.distinct(h)) c.count("states");
     if (V.nonEmptyRuns >= 2) c.nontrivial(h);
     for (auto& kv : V.viol)
       c.viol(kv.first + (p.coincident ? "[coincident-operands]" : "") + (p.zeroTangentRefine ? "[refine-of-zero-tangents]" : "") + ":" + name, name,
              kv.second);
+    c.count("prop_over_slack", V.propBad), c.count("pos_over_2tol", V.posBad);
+    if (!V.viol.empty()) {
+      c.count("violating_programs");
+      if (!p.coincident && !p.zeroTangentRefine) c.count("violating_programs_untagged");
+    }
     if (p.coincident) c.count("programs_coincident_operands");
     if (p.zeroTangentRefine) c.count("programs_refine_of_zero_tangents");
   };
